@@ -55,7 +55,8 @@ theorem inputsOK (v : I32) : InputsOK circ (inpOf v) := by
   · rename_i hi
     subst hi
     injection h with h
-    exact Or.inr ⟨"A", v, 5, rfl, h.symm⟩
+    subst h
+    exact Or.inr ⟨"A", 5, rfl, by intro s hs; have : ¬ "A" = s := fun e => hs e.symm; simp [this]⟩
   · cases h
 
 theorem inputsAgree (v : I32) : InputsAgree nodes bind (inpOf v) (envOf v) := by
@@ -89,13 +90,21 @@ theorem inputsAgree (v : I32) : InputsAgree nodes bind (inpOf v) (envOf v) := by
         subst h0
         exact Or.inl ⟨0, "a", "A", 5, "A", by decide, rfl, rfl⟩
       · exact absurd rfl he
-    · intro n k e hnode _
-      match n, hnode with
-      | 0, hnode => simp [nodes] at hnode
-      | 1, hnode => simp [nodes] at hnode
-      | 2, hnode => simp [nodes] at hnode
-      | 3, hnode => simp [nodes] at hnode
-      | (j + 4), hnode => simp [nodes] at hnode
+    · refine ⟨?_, ?_⟩
+      · intro n k e hnode _
+        match n, hnode with
+        | 0, hnode => simp [nodes] at hnode
+        | 1, hnode => simp [nodes] at hnode
+        | 2, hnode => simp [nodes] at hnode
+        | 3, hnode => simp [nodes] at hnode
+        | (j + 4), hnode => simp [nodes] at hnode
+      · intro n m ty es hnode _
+        match n, hnode with
+        | 0, hnode => simp [nodes] at hnode
+        | 1, hnode => simp [nodes] at hnode
+        | 2, hnode => simp [nodes] at hnode
+        | 3, hnode => simp [nodes] at hnode
+        | (j + 4), hnode => simp [nodes] at hnode
 
 /-- the closed corollary: from tick 7 on, for every input value `v`, combinator 6 shows `v || (-v > 3)` -/
 theorem holds_for_all_inputs (v : I32) (t : Nat) (ht : 7 ≤ t) :
